@@ -336,7 +336,7 @@ impl Property for C20 {
             .boxed()
     }
     fn cases(tier: Tier) -> u32 {
-        tier.pick(4_000, 60_000)
+        tier.pick(20_000, 100_000)
     }
     fn check(s: &Scenario) -> CheckResult {
         check(s)
